@@ -234,6 +234,9 @@ fn random_card(rng: &mut Rng) -> CardData {
         ats: if rng.chance(1, 2) { Some(refcodec::hex(&rng.bytes(5))) } else { None },
         sak: if rng.chance(1, 2) { Some(rng.byte()) } else { None },
         track_2: if rng.chance(1, 4) { Some(refcodec::hex(&rng.bytes(12))) } else { None },
+        status: if rng.chance(1, 4) { Some(StatusFields { amount: Some(rng.below(1_000_000)), trace_number: Some(rng.below(1_000_000)), date: Some(1231), time: Some(rng.below(240000) / 100 * 100), terminal_id: Some(rng.below(100_000_000)), currency: Some(978), card_name: if rng.chance(1, 2) { Some("girocard".into()) } else { None } }) } else { None },
+        receipt: if rng.chance(1, 4) { Some(rng.below(10000)) } else { None },
+        max_pre_auth: if rng.chance(1, 4) { Some(rng.below(100_000)) } else { None },
     }
 }
 
@@ -245,6 +248,9 @@ fn fixed_card_case(r: &mut Report, rng: &mut Rng, schema: &Arc<refcodec::layout:
         sak: Some(rng.byte()),
         track_2: Some(refcodec::hex(&rng.bytes(8))),
         subs_on_card: card.subs_on_card.clone(),
+        status: if card.status.is_some() { None } else { Some(StatusFields { amount: Some(rng.below(5000)), trace_number: Some(7), ..StatusFields::default() }) },
+        receipt: if card.receipt.is_some() { None } else { Some(1 + rng.below(9000)) },
+        max_pre_auth: if card.max_pre_auth.is_some() { None } else { Some(rng.below(7000)) },
         ..card.clone()
     };
     let n1 = rng.below(6) as usize;
